@@ -191,7 +191,18 @@ def nat_list(xs):
 def confusable(rng, s):
     """a different string that a cache key normalisation (strip, casefold, drop line breaks / white space, collapse blanks) would identify
     with s; it may well parse differently (white space inside a key makes it malformed, inside an AHB condition part changes the token)"""
-    k = rng.choice(("ws", "ws", "nl", "nl", "case", "edge", "dup"))
+    k = rng.choice(("ws", "ws", "nl", "nl", "case", "edge", "dup", "zero", "zero"))
+    if k == "zero":
+        # the same number in another spelling: [7] / [07] / [007] are different strings with different trees (the token keeps its text)
+        import re
+
+        runs = list(re.finditer(r"(?<=\[)\s*\d+", s))
+        if runs:
+            m = rng.choice(runs)
+            digits = m.group(0).strip()
+            new = digits.lstrip("0") or "0" if digits.startswith("0") and rng.random() < 0.5 else "0" * rng.randint(1, 2) + digits
+            return s[:m.start()] + m.group(0).replace(digits, new) + s[m.end():]
+        k = "ws"
     if k in ("ws", "nl") and s:
         i = rng.randint(0, len(s))
         return s[:i] + (rng.choice((" ", "\t", "  ")) if k == "ws" else rng.choice(("\n", "\r\n", "\n "))) + s[i:]
